@@ -212,3 +212,13 @@ func Covered() []string {
 	defer mu.Unlock()
 	return append([]string(nil), covered...)
 }
+
+// Fork case-splits the symbolic engine on the (small-range) value v: each value is explored as
+// its own path until the matching Join. Natively it returns v.
+func Fork(v int) int { return v }
+
+// Join ends every case split in force (paths at the same point merge again).
+func Join() {}
+
+// Digits is a symbolic string of exactly n decimal digits.
+func Digits(name string, n int) string { return StringN(name, n) }
